@@ -6,4 +6,4 @@ def run(ctx):
     # the verdict of a request to a communication object depends on the state of the service it configures (PDO / SYNC / heartbeat / EMCY
     # objects written while their service runs): expedited requests to those objects in the node as a whole (product model CoFull)
     import full_check
-    full_check.run(ctx, 400 if ctx.tier == "quick" else 20000)
+    full_check.run(ctx, 400 if ctx.tier == "quick" else 6000)
